@@ -3,9 +3,9 @@ import CLModel.Model.Scalar
 /-!
 # Text / byte decoders of the integer and scalar primitives: `impl*` and `spec*`
 
-`impl*` mirrors the repository's code path: `BigNumber::from_dec` / `from_hex` first test the
-whole string with `bn::is_numeral` (`-?[0-9]+`, `-?[0-9a-fA-F]+`) and then call the back-end
-parser (`BN_dec2bn` / `BigInt::from_str_radix`, modelled in `Model/BigNum.lean`);
+`impl*` mirrors the repository's code path: `BigNumber::from_dec` / `from_hex` as modelled per
+back-end in `Model/BigNum.lean` (whole-string test `bn::is_numeral`, then `BN_dec2bn` /
+`BigInt::from_str_radix`);
 `GroupOrderElement::from_string` / `from_bytes` are `Sc.fromString` / `Sc.fromBytes`.
 `spec*` is the property C16: the full-string numeral grammar for integers; hexadecimal digits
 only (1..71 of them) for scalars, the value reduced modulo the group order; at most 32 bytes.
@@ -18,24 +18,12 @@ inductive Backend where
   | rust
 deriving Repr, BEq, DecidableEq
 
-/-- `c.is_ascii() && c.is_digit(radix)` -/
-def isDigitOf (radix : Nat) (c : Char) : Bool := (BN.radixDigit radix c).isSome
-
-/-- `bn::is_numeral` -/
-def isNumeral (radix : Nat) (s : BN.Text) : Bool :=
-  let digits := if s.head? = some '-' then s.tail else s
-  !digits.isEmpty && digits.all (isDigitOf radix)
-
-def backendParse (b : Backend) (radix : Nat) (s : BN.Text) : Outcome Int :=
-  match b, radix with
-  | .openssl, 16 => BN.Ossl.fromHex s
-  | .openssl, _ => BN.Ossl.fromDec s
-  | .rust, 16 => BN.Rust.fromHex s
-  | .rust, _ => BN.Rust.fromDec s
-
-/-- `BigNumber::from_dec` (`radix = 10`) / `from_hex` (`radix = 16`) -/
+/-- `BigNumber::from_dec` (`radix = 10`) / `from_hex` (`radix = 16`) of the back-end: the
+whole-string test `bn::is_numeral`, then the back-end parser (`Model/BigNum.lean`) -/
 def implBnText (b : Backend) (radix : Nat) (s : BN.Text) : Outcome Int :=
-  if isNumeral radix s then backendParse b radix s else err
+  match b with
+  | .openssl => if radix = 16 then BN.Ossl.fromHex s else BN.Ossl.fromDec s
+  | .rust => if radix = 16 then BN.Rust.fromHex s else BN.Rust.fromDec s
 
 /-- the property: the string is in its entirety a numeral -/
 def specBnText (radix : Nat) (s : BN.Text) : Outcome Int := BN.Spec.parseNumeral radix s
